@@ -152,10 +152,14 @@ func c19Junk(rng *rand.Rand, secret, name string, redis bool, n int) []string {
 			add(enc(c19LZ4(b)))
 		}
 	}
-	// msgpack time extension with odd lengths, huge declared lengths
+	// msgpack time extension with odd lengths, large declared lengths. NB msgpack v5.4.1 allocates the DECLARED
+	// length of a str32/bin32 up front (readN): a validly signed payload declaring 4 GiB makes the process allocate
+	// 4 GiB. That is a memory-exhaustion hazard of the library reachable only with the cookie secret, not a panic;
+	// payloads declaring more than 16 MiB are therefore screened out (c19HugeDecl) so that the harness cannot
+	// exhaust the sandbox's memory.
 	for _, raw := range [][]byte{
 		{0x81, 0xa2, 'c', 'a', 0xd6, 0xff, 0, 0, 0, 0}, {0x81, 0xa2, 'c', 'a', 0xc7, 0x03, 0xff, 1, 2, 3}, {0x81, 0xa2, 'c', 'a', 0xc7, 0x0c, 0xff, 0xff, 0xff, 0xff, 0xff, 0xff, 0xff, 0xff, 0xff, 0xff, 0xff, 0xff, 0xff},
-		{0x81, 0xa1, 'g', 0xdd, 0xff, 0xff, 0xff, 0xff}, {0x81, 0xa1, 'e', 0xdb, 0x7f, 0xff, 0xff, 0xff}, {0xdf, 0xff, 0xff, 0xff, 0xff}, {0x81, 0xa1, 'n', 0xc6, 0xff, 0xff, 0xff, 0xf0},
+		{0x81, 0xa1, 'g', 0xdd, 0x00, 0xff, 0xff, 0xff}, {0x81, 0xa1, 'e', 0xdb, 0x00, 0xff, 0xff, 0xff}, {0xdf, 0x00, 0xff, 0xff, 0xff}, {0x81, 0xa1, 'n', 0xc6, 0x00, 0xff, 0xff, 0xf0},
 	} {
 		add(enc(c19LZ4(raw)))
 	}
@@ -178,6 +182,9 @@ func c19Junk(rng *rand.Rand, secret, name string, redis bool, n int) []string {
 			rng.Read(ins)
 			m = append(append(append([]byte{}, m[:p]...), ins...), m[p:]...)
 		}
+		if c19HugeDecl(m) {
+			continue
+		}
 		add(enc(c19LZ4(m)))
 	}
 	// timestamps
@@ -197,6 +204,26 @@ func c19Junk(rng *rand.Rand, secret, name string, redis bool, n int) []string {
 	return out
 }
 
+func c19Fatal(run *vfRun, format string, a ...interface{}) {
+	if run.T != nil {
+		run.T.Fatalf(format, a...)
+	}
+	panic(fmt.Sprintf(format, a...))
+}
+
+// c19HugeDecl: does b contain a msgpack 32-bit length marker (str32, bin32, array32, map32, ext32) declaring > 16 MiB?
+func c19HugeDecl(b []byte) bool {
+	for i := 0; i+4 < len(b); i++ {
+		switch b[i] {
+		case 0xdb, 0xc6, 0xdd, 0xdf, 0xc9:
+			if binary.BigEndian.Uint32(b[i+1:]) > 16<<20 {
+				return true
+			}
+		}
+	}
+	return false
+}
+
 func c19Prepare(run *vfRun, w *vfWorld, idp2 *vfIdP, cfg c19Cfg, hub *vfRedisHub) *c19Ctx {
 	flags := append([]string{}, cfg.Flags...)
 	if cfg.Redis {
@@ -210,14 +237,14 @@ func c19Prepare(run *vfRun, w *vfWorld, idp2 *vfIdP, cfg c19Cfg, hub *vfRedisHub
 		p, err = w.NewProxy(flags...)
 	}
 	if err != nil {
-		run.T.Fatalf("config %s: %v", cfg.Name, err)
+		c19Fatal(run, "config %s: %v", cfg.Name, err)
 	}
 	c := &c19Ctx{Cfg: cfg, P: p, CookieName: p.Opts.Cookie.Name, Secret: p.Opts.Cookie.Secret, W: w}
 	big := map[string]interface{}{"pad": vfRandHex(3500)} // forces a split cookie with the cookie store
 	for k, id := range []vfIdentity{vfStdIdentity, {Sub: "u-big", Email: "big@example.com", Groups: []string{"g1"}, Extra: big}, {Sub: "u-norefresh", Email: "nr@example.com", NoRefreshToken: true, Groups: []string{"g1"}}} {
 		b := vfNewBrowser("")
 		if _, _, err := b.Login(p, id, "/"); err != nil {
-			run.T.Fatalf("config %s: login %d: %v", cfg.Name, k, err)
+			c19Fatal(run, "config %s: login %d: %v", cfg.Name, k, err)
 		}
 		c.Sess = append(c.Sess, vfCookieHeader(b.Jar.For("proxy.test", "/", false)))
 	}
@@ -225,7 +252,7 @@ func c19Prepare(run *vfRun, w *vfWorld, idp2 *vfIdP, cfg c19Cfg, hub *vfRedisHub
 	b := vfNewBrowser("")
 	l, err := b.StartLogin(p, vfStdIdentity, "/after")
 	if err != nil {
-		run.T.Fatalf("config %s: start: %v", cfg.Name, err)
+		c19Fatal(run, "config %s: start: %v", cfg.Name, err)
 	}
 	c.State, c.LoginURL = l.State, l.LoginURL
 	c.CSRFCookie = vfCookieHeader(b.Jar.For("proxy.test", "/oauth2/callback", false))
@@ -251,7 +278,7 @@ func c19Prepare(run *vfRun, w *vfWorld, idp2 *vfIdP, cfg c19Cfg, hub *vfRedisHub
 	b64 := base64.StdEncoding.EncodeToString
 	c.Basics = []string{b64([]byte("hu:hp")), b64([]byte("hu:wrong")), b64([]byte("nouser:x")), b64([]byte("nocolon")), b64([]byte(":")), b64([]byte("hu:")), b64([]byte(":hp")), "!!!notbase64", "", b64([]byte("hu:hp:extra")),
 		b64([]byte(c.Bearers[0] + ":")), b64([]byte(c.Bearers[0] + ":x-oauth-basic")), b64([]byte("x:" + c.Bearers[1])), b64([]byte(c.Bearers[7] + ":")), b64([]byte(strings.Repeat("u", 70000) + ":p")), b64([]byte("h\x00u:hp"))}
-	c.SignedJunk = c19Junk(rand.New(rand.NewSource(run.Env.Seed*77+int64(len(cfg.Name)))), c.Secret, c.CookieName, cfg.Redis, run.Env.Pick(100, 1500))
+	c.SignedJunk = c19Junk(rand.New(rand.NewSource(run.Env.Seed*77+int64(len(cfg.Name)))), c.Secret, c.CookieName, cfg.Redis, run.Env.Pick(100, 600))
 	c.HeavyJunk = map[string]bool{}
 	for _, j := range c.SignedJunk { // measure: one decode each, sequentially
 		t0 := time.Now()
@@ -517,7 +544,7 @@ func TestVerif_C19(t *testing.T) {
 	htp := w.File("htpasswd", "hu:"+c19SHA("hp")+"\nother:"+c19SHA("x")+"\n")
 	w.File("a.txt", "file content")
 	cfgs := c19Configs(w, idp2, htp)
-	nRandom := run.Env.Pick(1200, 30000)
+	nRandom := run.Env.Pick(1200, 8000)
 	vfParallel(len(cfgs), 4, func(ci int) {
 		cfg := cfgs[ci]
 		c := c19Prepare(run, w, idp2, cfg, nil)
